@@ -14,8 +14,12 @@ EXPLANATION = (
     "Turtle shorthand production for T and the XSD lexical space of T. (L4.2) `prefix:local` is emitted only from "
     "the Some(..) arm of get_checked_prefixed_pair with a suffix check whose language, restricted to text that can "
     "occur in an IRI, is included in Turtle's PN_LOCAL without escapes; prefixes satisfy PN_PREFIX; "
-    "get_checked_prefixed_pair returns (prefix, suffix) of the same map entry with iri == ns + suffix. "
-    "NOT decided: sufficiency of the list/inlining/annotation heuristics, blank-node cycle handling, and everything "
+    "get_checked_prefixed_pair returns (prefix, suffix) of the same map entry with iri == ns + suffix. (L4.3) write_iri, "
+    "which serves every IRI position (predicate, datatype, graph name, quoted-triple component), emits nothing but these two "
+    "forms: no position-dependent abbreviation such as `()`. "
+    "(R4.3) the verdict of list_item depends on every class of arc of the node: any arc other than rdf:first/rdf:rest and a "
+    "second rdf:first lead to None, and the rdf:rest arcs are counted with the count tested before the item is returned. "
+    "NOT decided: sufficiency of the remaining list/inlining/annotation heuristics (build_lists, build_labelled), blank-node cycle handling, and everything "
     "delegated to rio's formatters; i.e. the isomorphism of the round trip itself.")
 
 PAIRING = {
@@ -70,8 +74,14 @@ def literal_rule(ck, facts, rl, owners):
             return consts[0]
         return None
 
+    # everything computed from the lexical form (the form itself, a `replace`d or re-allocated copy, format arguments ...)
+    from c19 import tainted_locals
+    lex_sources = {t["dest"][0] for _, t in fn.calls() if call_name_matches(t, r"Term>?::lexical_form$") and len(t["dest"]) == 1}
+    lex_taint = tainted_locals(fn, lex_sources) if lex_sources else set()
+
     def on_call(t):
-        if call_name_matches(t, SINKS) and any(comes_from_call(fn, a, r"Term>::lexical_form$|Term::lexical_form$") for a in t["args"][1:]):
+        # an emission of lexical-form-derived text that does not go through the escaping routine `quoted_string`
+        if call_name_matches(t, SINKS) and any(a[0] != "k" and a[1][0] in lex_taint for a in t["args"][1:]):
             return ("RAW", t)
         return None
     # Path rule (insensitive to how the test is spelled: nested ifs, `&&`/`||` chains, a boolean `let`): on every path, what
@@ -208,6 +218,22 @@ def iri_rule(ck, facts, rl, owners):
     if "{}:{}" not in seen_templates or "<{}>" not in seen_templates:
         ck.bad("L4.2", "L4.2@write_iri#templates-missing", "expected both `{}:{}` and `<{}>` emissions in write_iri "
                "(found %r)" % seen_templates, fn.loc)
+    # L4.3: write_iri serves every IRI position (predicate, datatype, graph name, components of quoted triples, ...): it must
+    # not emit anything but the two IRI forms - in particular no `()` / `a` / `[]` abbreviation, which the grammar allows in
+    # some positions only
+    from mirutil import const_bytes_of
+    consts = []
+    for bi2, t2 in fn.calls():
+        if call_name_matches(t2, r"write_bytes$|io::Write::write_all$|fmt::Write::write_str$") and len(t2["args"]) > 1:
+            c = const_bytes_of(fn, t2["args"][1])
+            consts.append((c if c is not None else "<non-constant>", "%s:%s" % (t2["file"], t2["line"])))
+    if consts:
+        ck.bad("L4.3", "L4.3@write_iri#abbreviation:%s" % consts[0][0],
+               "write_iri writes %r: it is called for predicates, datatypes, graph names and components of quoted triples, where "
+               "Turtle/TriG require `<iri>` or `prefix:local` (an abbreviation such as `()` for rdf:nil is only legal for subjects, "
+               "objects and list items)" % consts[0][0], consts[0][1])
+    else:
+        ck.ok("L4.3", "write_iri emits only `<iri>` / `prefix:local` (position-dependent abbreviations are not its business)")
 
 
 def prefix_rule(ck, facts, rl, owners):
@@ -224,6 +250,77 @@ def prefix_rule(ck, facts, rl, owners):
     if pn is not None:
         import c09
         c09.constructor_rule(ck, facts, pn, "is_valid_prefix", "Prefix::new")
+
+
+def list_item_rule(ck, facts):
+    """R4.3: the verdict of `list_item` (may this node be written inside `( .. )`?) depends on each class of arc the node
+    has: (a) an arc that is neither rdf:first nor rdf:rest leads to `None`; (b) a second rdf:first leads to `None`;
+    (c) the rdf:rest arcs are *counted*: the rdf:rest branch changes a state that is tested before `Some(item)` is returned
+    (a branch that merely continues makes nodes with zero, one or several rdf:rest arcs indistinguishable, and the
+    collection syntax can express exactly one).  Necessary conditions for the round trip of malformed lists."""
+    fn = find_one(ck, facts, "R4.3", "sophia_turtle", r"serializer::_pretty::list_item$", "list_item")
+    if fn is None:
+        return
+    key = "R4.3@list_item"
+
+    def eq_switch(static_suffix):
+        for bi in range(len(fn.blocks)):
+            bs = bool_switch(fn, bi)
+            if bs and bs[0][0] == "call" and call_name_matches(bs[0][1], r"cmp::PartialEq(<.*>)?>?::eq$"):
+                ct = bs[0][1]
+                cs = [provenance(fn, a)[-1] for a in ct["args"]]
+                if any(c[0] == "const" and c[1].get("kind") == "static" and c[1]["def"].endswith(static_suffix) for c in cs) \
+                        and any(comes_from_call(fn, a, r"Quad>?::p$") for a in ct["args"]):
+                    return bi, bs
+        return None
+    rest, first = eq_switch("rdf::rest"), eq_switch("rdf::first")
+    if rest is None or first is None:
+        ck.bad("R4.3", key + "#shape", "list_item does not compare the predicate of each arc with rdf:first and rdf:rest", fn.loc)
+        return
+    loop_heads = {bi for bi, t in fn.calls() if call_name_matches(t, r"iter::Iterator>?::next$|Iterator>::next$")}
+    none_rets = {bi for bi, b in enumerate(fn.blocks) for st in b["s"]
+                 if st[0] == "=" and st[1] == [0] and st[2][0] == "agg" and st[2][1].get("vname") == "None"}
+    # (a) neither first nor rest -> None, without going round the loop
+    other = fn.reachable(first[1][2], avoid=loop_heads)
+    if other & none_rets and not (other & loop_heads):
+        ck.ok("R4.3", "list_item: an arc that is neither rdf:first nor rdf:rest -> None")
+    else:
+        ck.bad("R4.3", key + "#other-arc", "an arc that is neither rdf:first nor rdf:rest does not make list_item answer None: "
+               "the extra statement would be lost when the node is written inside ( )", fn.loc)
+    # (c) the rest branch has an effect that is tested on the way to returning the item
+    region = fn.reachable(rest[1][1], avoid=loop_heads | {first[0]})
+    assigned = set()
+    for bi in region:
+        for st in fn.blocks[bi]["s"]:
+            if st[0] == "=" and len(st[1]) == 1 and fn.locals[st[1][0]].get("name"):
+                assigned.add(st[1][0])
+    from c19 import tainted_locals
+    taint = tainted_locals(fn, assigned) if assigned else set()
+    tested = False
+    for bi, b in enumerate(fn.blocks):
+        t = b["t"]
+        if t["t"] == "switch" and t["on"][0] != "k" and t["on"][1][0] in taint and bi not in region:
+            tested = True
+    if region & none_rets and not assigned:
+        ck.ok("R4.3", "list_item: an rdf:rest arc is rejected outright")       # (a stricter, still sound policy)
+    elif tested:
+        ck.ok("R4.3", "list_item: rdf:rest arcs are counted and the count is tested before the item is returned")
+    else:
+        ck.bad("R4.3", key + "#rest-not-counted", "the rdf:rest branch of list_item has no effect on its verdict: a node with several "
+               "(or no) rdf:rest arcs is accepted as a list node, and ( ) can express exactly one", fn.loc)
+    # (b) a second rdf:first -> None: the first branch is guarded by a test of the item found so far
+    guarded = False
+    reg_f = fn.reachable(first[1][1], avoid=loop_heads)
+    for bi in reg_f:
+        bs = bool_switch(fn, bi)
+        if bs and bs[0][0] == "call" and call_name_matches(bs[0][1], r"Option::<T>::(is_none|is_some)$"):
+            guarded = True
+        if fn.blocks[bi]["t"]["t"] == "switch" and (fn.blocks[bi]["t"].get("variants") or {}).get("enum") == "core::option::Option":
+            guarded = True
+    if guarded and (reg_f & none_rets):
+        ck.ok("R4.3", "list_item: a second rdf:first -> None")
+    else:
+        ck.bad("R4.3", key + "#second-first", "a second rdf:first arc does not make list_item answer None", fn.loc)
 
 
 def prefixed_pair_rule(ck, facts):
@@ -381,6 +478,7 @@ def run(ck, facts, tier):
     iri_rule(ck, facts, rl, owners)
     prefix_rule(ck, facts, rl, owners)
     prefixed_pair_rule(ck, facts)
+    list_item_rule(ck, facts)
     linfo, res = rl.run()
     for name, info in linfo.items():
         if not info.get("ok"):
